@@ -537,6 +537,59 @@ def o8(tier):
     return ob.done(cases=total)
 
 
+@guard
+def o9(tier):
+    """an admin's removal changes exactly what it names: every leaf of a named identity, and no other"""
+    old = M.SEQ_BOUND[0]
+    M.SEQ_BOUND[0] = 2 if tier == 'quick' else 3
+    try:
+        ob = Ob('O9', f'remove_members: every member of the group is examined and the leaves handed to OpenMLS are exactly those whose Nostr identity is among the named keys '
+                      f'(member lists of 0..{M.SEQ_BOUND[0]} leaves, two leaves may carry the same identity), in member order', pure=C.PURE_MLS, loop_bound=6)
+        f = ob.fn(VALID, 'groups::remove_members')
+        paths = ob.explore(f, [Opaque('self', '&MDK<Storage>'), Opaque('gid', '&mdk_storage_traits::GroupId'), Opaque('pubkeys', '&[nostr::key::PublicKey]')])
+    finally:
+        M.SEQ_BOUND[0] = old
+    n = 0
+    for p in paths:
+        if p.kind != 'return':
+            continue
+        rm = [e for e in p.trace if ev_is(e, 'remove_members') and 'openmls' in e.fn]
+        if not rm:
+            continue
+        n += 1
+        u = lambda v: uid_of(ob.eng, p.st, v)
+        pk = [e for e in p.trace if ev_is(e, 'pubkey_for_member')]
+        ct = [e for e in p.trace if ev_is(e, 'contains')]
+        nmem = z3.BitVec('members#len', 64)
+        ob.prove(p, nmem == len(pk), 'O9/member-not-examined', f'remove_members stops after examining {len(pk)} member(s) although the group has more: a further leaf of a named identity is not removed')
+        if not ob.require(len(ct) == len(pk), 'O9/shape', f'{len(pk)} members examined, {len(ct)} membership tests', p):
+            continue
+        lst = rm[0].args[3]
+        items = [u(x) for x in lst.items] if hasattr(lst, 'items') else None
+        if not ob.require(items is not None, 'O9/leaf-list-shape', f'leaf list is {u(lst)}', p):
+            continue
+        for j, (e_pk, e_ct) in enumerate(zip(pk, ct)):
+            member = u(e_pk.args[1])
+            named = ob.eng.prove(p, e_ct.ret)[0] if z3.is_expr(e_ct.ret) else None
+            has = any(x.startswith(member + '.') or x.startswith('<' + member + '.') or member in x for x in items)
+            if named is True:
+                ob.require(has, 'O9/named-leaf-not-removed', f'member {member} carries a named identity but its leaf is not in the list handed to OpenMLS {items}', p)
+            elif ob.eng.prove(p, z3.Not(e_ct.ret))[0]:
+                ob.require(not has, 'O9/unnamed-leaf-removed', f'member {member} is not named but its leaf is in the removal list {items}', p)
+    ob.require(n >= 2, 'O9/vacuity', f'paths reaching the OpenMLS removal: {n}')
+    ob.r.bounds = {'members': f'0..{2 if tier == "quick" else 3}', 'paths': 'all'}
+    return ob.done(cases=len(paths))
+
+
+def o10(tier):
+    """a refused late commit must not roll anything back after a restart either: hydrated snapshots carry no usable timestamp"""
+    from props import C11
+    r = C11.o1(tier)
+    r.oid = 'O10'
+    r.title = 'shared with C11-O1: a snapshot re-loaded after a restart carries timestamp 0 (unknown), so a stale commit that is going to be refused cannot win the MIP-03 comparison and roll the group back first'
+    return r
+
+
 def run(tier, seed, only=None):
-    obs = [('O1', o1), ('O2', o2), ('O3', o3), ('O4', o4), ('O5', o5), ('O6', o6), ('O7', o7), ('O8', o8)]
+    obs = [('O1', o1), ('O2', o2), ('O3', o3), ('O4', o4), ('O5', o5), ('O6', o6), ('O7', o7), ('O8', o8), ('O9', o9), ('O10', o10)]
     return [f(tier) for k, f in obs if not only or k in only]
